@@ -266,6 +266,11 @@ def cell_typelab(cell):
                     b = rng.choice(bt[:2])
                 elif r < 0.4 and G:
                     b = rng.choice(G)
+                elif r < 0.65 and vars_:
+                    # a parameterized bound that mentions an EARLIER pattern variable: X1 : G<.., X0, ..>
+                    gc = rng.choice(generic)
+                    b = ('c', gc['name'], tuple(rng.choice(vars_) if rng.random() < 0.6 else rng.choice(U)
+                                                for _ in gc['params']))
                 vars_.append(('v', 'X%d' % i, INV, b))
 
             def pat(depth=0):
@@ -289,8 +294,12 @@ def cell_typelab(cell):
             pattern = pat()
             sigma = {}
             for v in vars_:
+                vb = None if v[3] is None else terms.subst(v[3], sigma)
+                if vb is not None and vb[0] == 'c' and vb[2] and not terms.has_kind(vb, ('v',)) and rng.random() < 0.7:
+                    sigma[v[1]] = vb                 # the instantiated bound itself is within the bound
+                    continue
                 cand = [x for x in rng.sample(U, min(len(U), 20))
-                        if v[3] is None or terms.refsub3(x, v[3], T) is True]
+                        if vb is None or (not terms.has_kind(vb, ('v',)) and terms.refsub3(x, vb, T) is True)]
                 if cand:
                     sigma[v[1]] = rng.choice(cand)
             target = terms.subst(pattern, sigma)
